@@ -29,6 +29,13 @@ FLOOR_NONTRIVIAL = 20
 
 GRID3 = [0.2, 0.6, 1.0]
 GRID4 = [0.1, 0.3, 0.7, 1.0]
+GRIDS = {
+    3: GRID3,
+    4: GRID4,
+    5: [0.05, 0.15, 0.4, 0.7, 1.0],
+    7: [0.02, 0.05, 0.1, 0.2, 0.4, 0.7, 1.0],
+    8: [0.01, 0.03, 0.07, 0.15, 0.3, 0.5, 0.75, 1.0],
+}
 T1, T2, T3 = [3.0, 4], [6.0, 5], [10.0, 5]
 CARDS = {
     "lo-ffns": dict(order=[1, 0], mugrid=[T1], method="truncated"),
@@ -42,7 +49,7 @@ _BASE = {}
 
 def _cfg(card, grid, cores=1, mugrid=None):
     c = dict(CARDS[card])
-    c["xgrid"] = GRID4 if grid == 4 else GRID3
+    c["xgrid"] = GRIDS[grid]
     c["cores"] = cores
     if mugrid is not None:
         c["mugrid"] = mugrid
@@ -126,9 +133,15 @@ def evaluate(case):
         _cmp(res, f"solve/{card}/recipe-order", f"recipe permutation {perm} mugrid={case['mugrid']}", card, grid, ops)
         res.outcome = "recipes"
         res.nontrivial = list(perm) != sorted(perm)
+    elif kind == "vdefault":
+        ctl = vpool.PoolController()
+        with vpool.installed(ctl):
+            ops = cards.solve_ops(_cfg(card, grid, case["cores"]), tag="c03")
+        _cmp(res, f"solve/{card}/virtual-pool/grid-size", f"grid of {grid} points, cores={case['cores']}, default schedule", card, grid, ops)
+        res.outcome = f"vdefault:{grid}:{case['cores']}"
     elif kind == "realpool":
         ops = cards.solve_ops(_cfg(card, grid, case["cores"]), tag="c03")
-        _cmp(res, f"solve/{card}/real-pool", f"real multiprocessing.Pool, n_integration_cores={case['cores']}", card, grid, ops)
+        _cmp(res, f"solve/{card}/real-pool", f"real multiprocessing.Pool, grid of {grid} points, n_integration_cores={case['cores']}", card, grid, ops)
         res.outcome = f"realpool:{case['cores']}"
     else:
         raise HarnessError(kind)
@@ -174,6 +187,12 @@ def run(ctx):
     perms = list(itertools.permutations(range(nrec)))
     for perm in perms:
         cases.append(dict(kind="recipes", card=tcard, mugrid=mg, perm=list(perm)))
+    # grid sizes that are not multiples of the worker count (default schedule of the virtual pool, and the real pool)
+    for g in (5, 7, 8):
+        for cores in (2, 3, 4):
+            cases.append(dict(kind="vdefault", card="lo-ffns", grid=g, cores=cores))
+    for g, cores in ((5, 2), (8, 3), (7, 4)) + (((7, 2), (8, 5), (5, 3)) if thorough else ()):
+        cases.append(dict(kind="realpool", card="lo-ffns", grid=g, cores=cores))
     # free-running conformance of the virtual pool
     for card in (["lo-ffns", "lo-thr"] if not thorough else list(CARDS)):
         for cores in (2, 3, -13):
@@ -181,7 +200,7 @@ def run(ctx):
     results = ctx.run_cases(cases, evaluate)
     reordered = sum(1 for c, r in results if c["kind"] == "sched" and r[0] and "reordered" in r[0])
     reuse = sum(1 for c, r in results if c["kind"] == "sched" and r[0] and "reuse" in r[0])
-    if reordered == 0 or reuse == 0:
+    if (reordered == 0 or reuse == 0) and not ctx.fails:
         raise HarnessError("vacuous schedule enumeration: no reordered completion or no worker reuse")
     ctx.extra.update(
         states=len(cases),
@@ -196,7 +215,7 @@ def run(ctx):
         "schedules: for every pool.map call of each card, all assignments of the grid-point tasks to "
         f"{worker_counts} virtual workers (modulo worker renaming) x all completion orders consistent with per-worker FIFO, "
         "other calls on the default schedule; targets: all permutations of all non-empty subsets of 3 targets; recipes: all "
-        "permutations of the recipe list; real pool with cores in {2,3,-13}; non-trivial = completion order differs from "
+        "permutations of the recipe list; grids of 5, 7, 8 points on 2-4 workers (sizes that are not multiples of the worker count); real pool with cores in {2,3,-13}; non-trivial = completion order differs from "
         "submission order or a worker ran >= 2 tasks, >= 2 targets, or a non-identity permutation"
     )
     ctx.assumptions += [
